@@ -17,6 +17,7 @@ Record step := {
 Record seq_case := {
   q_sha1 : list (list N * list N);   (* SHA-1 of the raw control members and file bodies in play *)
   q_sha256 : list (list N * list N); (* SHA-256 of the raw data members in play *)
+  q_b64 : list (string * option (list N));   (* base64.StdEncoding.DecodeString on the checksum strings in play *)
   q_steps : list step
 }.
 
@@ -40,6 +41,7 @@ Section Run.
   Variable c : seq_case.
   Let sha1 := table (q_sha1 c).
   Let sha256 := table (q_sha256 c).
+  Let b64 := fun s => match assoc_s s (q_b64 c) with Some r => r | None => None end.
   Let candidates : list apkfile :=
     List.flat_map (fun s => match s_served s with Some a => [a] | None => [] end) (q_steps c).
 
@@ -60,20 +62,30 @@ Section Run.
     match explanations o with
     | [] => ["viol:installed-content-from-nowhere"]
     | x :: more =>
-        if existsb (fun y => match chain_tags sha1 sha256 sfx h y with [] => true | _ => false end) (x :: more)
-        then [] else chain_tags sha1 sha256 sfx h x
+        if existsb (fun y => match chain_tags sha1 sha256 b64 sfx h y with [] => true | _ => false end) (x :: more)
+        then [] else chain_tags sha1 sha256 b64 sfx h x
     end.
 
-  (* model state: memo, caches; spec-side bookkeeping: URLs expanded with a
-     cache configured since the process started *)
-  Fixpoint run (m : memo) (cs : list (nat * cache)) (seen : list string) (i : N) (ss : list step) : list string :=
+  (* model state: memo, caches; spec-side bookkeeping: the (URL, checksum string)
+     pairs expanded with a cache configured since the process started *)
+  Definition same_req (a b : handle) : bool :=
+    String.eqb (h_url a) (h_url b) && String.eqb (h_chk a) (h_chk b).
+  (* names the mechanism when an install breaks the chain after an earlier
+     request of the same process: a different request with the same memo key, or
+     the same URL with another checksum (what fix 9459281 closed) *)
+  Definition mechanism (seen : list handle) (h : handle) : string :=
+    if existsb (fun p => String.eqb (memo_key p) (memo_key h) && negb (same_req p h)) seen
+    then "/memo-key-ambiguous"
+    else if existsb (fun p => String.eqb (h_url p) (h_url h) && negb (same_req p h)) seen
+    then "/process-memo-by-url" else "".
+  Fixpoint run (m : memo) (cs : list (nat * cache)) (seen : list handle) (i : N) (ss : list step) : list string :=
     match ss with
     | [] => []
     | s :: ss' =>
         let m0 := if s_new_process s then [] else m in
         let seen0 := if s_new_process s then [] else seen in
         let k := match s_cache s with Some j => Some (get_cache j cs) | None => None end in
-        let '(r, k', m1) := expand_package sha1 sha256 m0 k (s_handle s) (s_served s) in
+        let '(r, k', m1) := expand_package sha1 sha256 b64 m0 k (s_handle s) (s_served s) in
         let cs' := match s_cache s, k' with Some j, Some kc => (j, kc) :: cs | _, _ => cs end in
         let predicted :=
           match r with
@@ -83,9 +95,8 @@ Section Run.
                      end
           | XErr _ => None
           end in
-        let url := h_url (s_handle s) in
-        let memo_hit := match s_cache s with Some _ => existsb (String.eqb url) seen0 | None => false end in
-        let seen1 := match s_cache s with Some _ => url :: seen0 | None => seen0 end in
+        let sfx := match s_cache s with Some _ => mechanism seen0 (s_handle s) | None => "" end in
+        let seen1 := match s_cache s with Some _ => s_handle s :: seen0 | None => seen0 end in
         tag_if (negb (option_eqb out_eqb predicted (o_out s)))
           (match predicted, o_out s with
            | Some _, None => "mismatch:model-installs-impl-fails"
@@ -94,7 +105,7 @@ Section Run.
            end) ++
         match o_out s with
         | None => []
-        | Some o => judge (if memo_hit then "/process-memo-by-url" else "") (s_handle s) o
+        | Some o => judge sfx (s_handle s) o
         end ++
         run m1 cs' seen1 (N.succ i) ss'
     end.
